@@ -190,7 +190,7 @@ def ble_oracle(ix: Index, scn: dict) -> list[Violation]:
             wrote = any(op.s0 < seq < op.s1 for fd in ix.conn_fds(op.conn) for seq, *_ in ix.tr_writes.get(fd, []))
             if wrote:
                 out.append(Violation("error-without-close", f"{op.do}:{cls}", f"{op.actor} {op.do} raised {cls}: {err.get('text')} while the connection was up"))
-        elif kind in ("result", "gatt_error", "dropped") and key[0] < ix.seq_turn[closed]:
+        elif kind in ("result", "gatt_error", "dropped") and key[0] < ix.seq_turn[closed] and key[2] < deadline - 1e-9:
             out.append(Violation("error-despite-reply", op.do, f"{op.actor} {op.do} failed with {cls} although its reply was delivered before the close"))
     # notify data / connection state callbacks only for their own address+handle
     subs_notify = {}
